@@ -47,6 +47,7 @@ def run(rep, tier):
     # the hull is computed from exterior_coords_iter(): every exterior coordinate of every member must be handed over (tables shared with C19)
     from . import c19
     c19.traversal_tables(rep, F, rule="R8.9")
+    rotated_rect_edges(rep, F)
 
 
 def side_tests(rep, F):
@@ -402,3 +403,77 @@ def _farthest_key_in(rep, F, fn):
         rep.ok("R8.6", "key~cross(b-a,pt-a)", sample=full)
     else:
         rep.bad("R8.6", "key:value", "the farthest-point key %s is not a positive multiple of cross(b - a, pt - a)" % full[:200], where=g.loc())
+
+
+def rotated_rect_edges(rep, F):
+    """R8.10: minimum_rotated_rect with the hull answered by a concrete ring of 3 and 4 vertices (exact unrolling): on every path the
+    candidate directions tried are ALL edges of the hull ring (the minimum-area rectangle is flush with some hull edge, so skipping an edge can
+    miss it), and the rectangle returned is the candidate of the chosen edge rotated back by that same edge's angle."""
+    from ..symex import _ret
+    rep.rule("R8.10", "minimum_rotated_rect (hull rings of 3 and 4 vertices, exact unrolling): every hull edge is tried as a rectangle direction on every path, and the result is the chosen candidate rotated back by its own edge angle")
+    GT = "geo_types::geometry::"
+    LS = GT + "line_string::LineString"
+    try:
+        fn = F.one(r"minimum_rotated_rect::MinimumRotatedRect<T>>::minimum_rotated_rect$", crates=("geo",))
+    except KeyError as e:
+        rep.bad("R8.10", "mrr:anchor", str(e))
+        return
+
+    def vec(items):
+        return ("call", "vec!", (("array", tuple(items)),))
+    n_ok = 0
+    for n in (3, 4):
+        names = ["h%d" % i for i in range(n)]
+        hull = ("adt", GT + "polygon::Polygon", "Polygon", (("adt", LS, "LineString", (vec([("opaque", x) for x in names + names[:1]]),)), vec([])))
+        want = {frozenset((names[i], names[(i + 1) % n])) for i in range(n)}
+
+        def m_hull(ex, st, call, args, hull=hull):
+            return _ret(st, hull)
+        models = {"geo::algorithm::convex_hull::ConvexHull::convex_hull": m_hull}
+        for g in F.find(r"ConvexHull<.*>>::convex_hull$", crates=("geo",)):
+            models[g.path] = m_hull
+        try:
+            ex = Symex(F, models=models, concrete_iters=True, loop_bound=n + 4, inline_crates=("geo", "geo_types"), max_depth=10, max_paths=5000,
+                       no_inline=[r"Centroid.*::centroid$", r"Rotate.*::rotate_around_point$", r"BoundingRect.*::bounding_rect$", r"::unsigned_area$", r"::to_polygon$"])
+            ex.resolve_by_receiver = True
+            ps = [p for p in ex.run(fn, args=[("&", ("opaque", "g"))]) if p.kind == "ret"]
+        except Unanalysable as e:
+            rep.bad("R8.10", "mrr:unanalysable", str(e), where=fn.loc())
+            return
+        bad = None
+        full = 0
+        for p in ps:
+            rots = [e for e in p.trace if e[0] == "call" and e[1].endswith("rotate_around_point")]
+            if show(p.ret).startswith("Option::None"):
+                continue          # a `?` exit (no centroid / no bounding box)
+            tried = []
+            back = None
+            for e in rots:
+                ang = show(e[2][1])
+                seen_h = []
+                for x in re.findall(r"opaque\((h\d)\)", ang):
+                    if x not in seen_h:
+                        seen_h.append(x)
+                edge = frozenset(seen_h) if len(seen_h) == 2 else None
+                if ang.startswith("neg("):
+                    tried.append(edge)
+                else:
+                    back = edge
+            if back is None and not any(not show(e[2][1]).startswith("neg(") for e in rots):
+                continue          # left through `?` before the final rotation
+            full += 1
+            if set(tried) != want:
+                bad = "a path tries the hull edges %s as rectangle directions; the hull ring has the edges %s" % (sorted(tuple(sorted(x)) for x in set(tried) if x), sorted(tuple(sorted(x)) for x in want))
+                break
+            if back not in want:
+                bad = "the result is rotated back by an angle that is not the angle of a hull edge (%s)" % (back,)
+                break
+        if bad:
+            rep.bad("R8.10", "mrr:edges", "hull of %d vertices: %s" % (n, bad), where=fn.loc())
+            return
+        if not full:
+            rep.bad("R8.10", "mrr:paths", "hull of %d vertices: no path completes the loop over the hull edges" % n, where=fn.loc())
+            return
+        n_ok += 1
+        rep.ok("R8.10", "mrr:hull-%d[%d complete paths]" % (n, full))
+    rep.floor("R8.10", "hull sizes", n_ok, 2)
